@@ -211,7 +211,7 @@ PROPS["C07"] = {
              "replay of old queries, classes clean, isolated-loss (at least 8 fault-free deliveries between faults) and heavy (which may include path outages of 8-40 s, long enough for a Write to fail, after which the writer carries on from the accepted count), then a fault-free drain; non-trivial = the run reached its final "
              "judgement; distinct = schedule shapes"),
     "probes": ["queue_exchanges", "conn_bytes_moved", "many_fragment_writes", "runs_with_concurrent_duplicates", "sequence_wrap_crossed", "sequence_wrap_region", "fault_query_lost", "fault_answer_lost", "fault_query_dup",
-               "fault_old_query_replayed", "fault_late_answer", "fault_dgram_loss", "fault_dgram_dup", "fault_delay", "fault_outage"],
+               "fault_old_query_replayed", "fault_late_answer", "fault_dgram_loss", "fault_dgram_dup", "fault_delay", "fault_outage", "write_then_close_delivered", "lock_preemptions"],
     "technique": "deterministic simulation: seeded search over per-exchange fates x writes/reads both ways, sequence wrap via start numbers and long streams, PRF prefix / exactly-once / acknowledged-implies-delivered / absorption / termination oracles",
     "level_text": ("Seeded exploration of fault histories. Every byte read is checked against the position-addressable PRF stream of what the peer's Write calls accepted (gap, repeat and reorder "
                    "are caught at the first bad byte); after the drain everything a successful Write accepted must have been read and every Write must have returned; in the isolated-loss class "
